@@ -321,6 +321,7 @@ lazy_static! {
             ("upper".to_owned(), Function::StringToUpper),
             ("lower".to_owned(), Function::StringToLower),
             ("regexp_matches".to_owned(), Function::RegexMatches),
+            ("regex_matches".to_owned(), Function::RegexMatches),
             ("create_array".to_owned(), Function::CreateArray),
             ("array_unique".to_owned(), Function::ArrayUnique),
             ("array_length".to_owned(), Function::ArrayLength),
